@@ -12,6 +12,7 @@ func init() {
 			ruleJSONReset(c)
 			ruleJSONProtocol(c)
 			ruleJSONRawString(c)
+			ruleJSONTime(c)
 		},
 	})
 }
